@@ -611,9 +611,9 @@ func (c *fnCtx) structTypeOf(e ast.Expr) *fnType {
 	names, types := structFields(ts.Type.(*ast.StructType))
 	c.withTypeArgs(tps, args, e, func() {
 		for _, n := range names {
-			ft := c.fieldType(types[n])
+			ft := c.fieldTypeOf(id.Name, n, types[n])
 			switch ft.k {
-			case "int", "byte", "bool", "string", "elem", "struct", "u64", "ptr", "view":
+			case "int", "byte", "bool", "string", "elem", "struct", "u64", "ptr", "view", "slice":
 			default:
 				c.lostAt(e, "struct type %s with a field of type %s (aliasing)", id.Name, src(types[n]))
 			}
@@ -644,15 +644,18 @@ func (g *fnGen) record(c *fnCtx, ts *ast.TypeSpec) {
 	g.usedStructs[name] = true
 	tps := fieldListNames(ts.TypeParams)
 	// the field types in terms of the struct's own type parameters
-	saved := c.elemT
+	saved, savedPkg := c.elemT, c.foreignPkg
 	c.elemT = map[string]*fnType{}
-	defer func() { c.elemT = saved }()
+	if pkg, ok := g.foreignStructs[ts]; ok {
+		c.foreignPkg = pkg // the field types are read inside that package
+	}
+	defer func() { c.elemT, c.foreignPkg = saved, savedPkg }()
 	c.typeParams(ts.TypeParams)
 	names, types := structFields(ts.Type.(*ast.StructType))
 	var fs []string
 	recursive := false
 	for _, n := range names {
-		ft := c.fieldType(types[n])
+		ft := c.fieldTypeOf(ts.Name.Name, n, types[n])
 		if ft.k == "ptr" && ft.elem.decl == ts {
 			recursive = true
 		}
@@ -794,6 +797,10 @@ func (c *fnCtx) structLit(v *ast.CompositeLit, t *fnType, pre *[]fnBind) string 
 			strs[i] = c.viewOf(vals[i], pre)
 			continue
 		}
+		if t.res[i].k == "slice" {
+			strs[i] = c.ownedValue(vals[i], nil, t.fnames[i], t.res[i], pre) // a slice field the struct owns
+			continue
+		}
 		x, xt := c.expr(vals[i], pre)
 		c.noAlias(vals[i], xt)
 		strs[i] = x
@@ -822,8 +829,16 @@ func (c *fnCtx) structStore(st *ast.AssignStmt, sel *ast.SelectorExpr, r ast.Exp
 	if i < 0 {
 		c.lostAt(st, "assignment target %s (no such field)", src(sel))
 	}
-	e, et := c.expr(r, &pre)
-	c.noAlias(r, et)
+	var e string
+	if x.typ.res[i].k == "slice" {
+		e = c.ownedValue(r, x, sel.Sel.Name, x.typ.res[i], &pre) // a slice field the struct owns
+	} else if x.typ.res[i].k == "view" {
+		c.lostAt(st, "assignment to the slice field %s", src(sel))
+	} else {
+		var et *fnType
+		e, et = c.expr(r, &pre)
+		c.noAlias(r, et)
+	}
 	s := "mk_" + x.typ.name
 	for j, n := range x.typ.fnames {
 		if j == i {
@@ -833,6 +848,10 @@ func (c *fnCtx) structStore(st *ast.AssignStmt, sel *ast.SelectorExpr, r ast.Exp
 		}
 	}
 	pre = append(pre, fnBind{pat: x.name, e: s, isLet: true, effect: x.role == "field"})
+	if x.aliasOf != nil {
+		// x stands for an element of a list of distinct pointers: the store is visible there at once
+		pre = append(pre, fnBind{pat: x.aliasOf.name, m: tRaw{"go_set " + x.aliasOf.name + " " + x.aliasIdx.name + " " + x.name}, effect: true})
+	}
 	return wrap(pre, k())
 }
 
